@@ -1336,7 +1336,7 @@ def replace_step(trace, i, step):
 
 def jobs_for(tier, seed):
     if tier == "quick":
-        n_dir, n_rand = 42 * 2, 1600
+        n_dir, n_rand = 42 * 2, 1300
     else:
         n_dir, n_rand = 42 * 6, 60000
     jobs = [("directed", seed, i) for i in range(n_dir)]
